@@ -13,7 +13,9 @@ The monitor is stepped in lock-step with the implementation: ``start``, ``stop``
 expiry of the check timer, ``check(ms, emitted)`` with the CAMs (decoded) the implementation handed to BTP
 during that check.  It owns no model of T_GenCam / N_GenCam: the statement only bounds the spacing, so a CAM
 at any check >= 100 ms after the previous one is allowed; what is *required* is (a) a CAM when the dynamics
-thresholds are exceeded, (b) a CAM before T_GenCamMax + one check period has passed.
+thresholds are exceeded, (b) a CAM at every check at which more than T_GenCamMax has elapsed (= "no further apart than
+T_GenCamMax plus one check period", judged on every pair of CAMs and robust against checks that come late: the period
+that counts is the one that actually led to the check).  While the lower layers reject requests nothing is required.
 
 Interpretations (stated, because the sentence leaves them open):
 * spacing and the low-frequency rule are per activation period (``start`` resets them, like the service);
@@ -85,6 +87,7 @@ class CamRules:
         self.last_cam_report = None
         self.last_lf_ms = None
         self.late_flagged = False
+        self.link_up = True           # False while the lower layers reject requests (environment fault)
 
     # -- environment events ------------------------------------------------------------------
     def start(self, ms):
@@ -100,6 +103,9 @@ class CamRules:
     def stop(self, ms):
         self.active = False
         self.anchor_ms = None
+
+    def set_link(self, ms, up: bool):
+        self.link_up = up
 
     def on_report(self, ms, report: dict, report_ms):
         self.report = report
@@ -127,13 +133,18 @@ class CamRules:
         ref_ms = self.last_cam_ms if self.last_cam_ms is not None else self.anchor_ms
         elapsed = ms - ref_ms
         if not cams:
+            if not self.link_up:
+                return out             # nothing can be handed down: no obligation while the lower layers are unavailable
             if not ("lat" in self.report and "lon" in self.report):
                 return out             # "position data is available" does not hold: no obligation to send
             if self.last_cam_ms is not None and elapsed >= T_GEN_CAM_MIN:
                 must, why = dynamics_exceeded(self.report, self.last_cam_report)
                 if must:
                     out.append(dict(kind="cam_missed_dynamics", elapsed_ms=elapsed, why="+".join(why)))
-            if elapsed >= T_GEN_CAM_MAX + self.P and not self.late_flagged:
+            # "never further apart than T_GenCamMax plus one check period": a check that passes without a CAM although more
+            # than T_GenCamMax has elapsed makes the next CAM later than T_GenCamMax + the period that led to this check,
+            # whatever that period was (on time or late).  At exactly T_GenCamMax the CAM may still wait one more period.
+            if elapsed > T_GEN_CAM_MAX and not self.late_flagged:
                 self.late_flagged = True
                 out.append(dict(kind="cam_too_late", elapsed_ms=elapsed, first=self.last_cam_ms is None))
             return out
@@ -141,8 +152,6 @@ class CamRules:
         if self.last_cam_ms is not None:
             if elapsed < T_GEN_CAM_MIN:
                 out.append(dict(kind="cam_too_close", spacing_ms=elapsed))
-        if elapsed > T_GEN_CAM_MAX + self.P and not self.late_flagged:
-            out.append(dict(kind="cam_too_late", elapsed_ms=elapsed, first=self.last_cam_ms is None))
         params = cam["cam"]["camParameters"]
         has_lf = "lowFrequencyContainer" in params
         want_lf = self.last_lf_ms is None or (ms - self.last_lf_ms) >= T_LF
@@ -185,4 +194,4 @@ class CamRules:
         """Relative projection for state merging."""
         rel = lambda t: None if t is None else ms - t   # noqa: E731
         return (self.active, self.report is not None, rel(self.anchor_ms) if self.last_cam_ms is None else None,
-                rel(self.last_cam_ms), None if self.last_lf_ms is None else min(rel(self.last_lf_ms), T_LF), self.late_flagged)
+                rel(self.last_cam_ms), None if self.last_lf_ms is None else min(rel(self.last_lf_ms), T_LF), self.late_flagged, self.link_up)
